@@ -18,7 +18,7 @@
    dtype is reduced modulo 2^w (numba_boxing_roundtrip_refuted: shape (300,) with int8 coordinates comes back as
    shape (44,)); proved under the clause nb_shape_fits. *)
 From Coq Require Import ZArith List Bool String.
-From Verif Require Import Py Shape COO S_npz Npz NpzP.
+From Verif Require Import Py Shape COO S_npz Npz Crc32 Crc32P NpzP.
 Import ListNotations.
 Open Scope Z_scope.
 
@@ -162,3 +162,36 @@ Theorem numba_construct_refuted :
     nb_construct Z 0 (64, true) c = Raise TypeError.
 Proof. exact numba_construct_refuted_proof. Qed.
 Print Assumptions numba_construct_refuted.
+
+(* ---- part of the container oracle replaced by a theorem: CRC-32 as zlib computes it (Model/Crc32.v, validated against
+   zlib.crc32 and the CRC fields of real archives by the campaign) detects every single-byte change of a message *)
+Theorem crc32_detects_single_byte :
+  forall (msg : list Z) (i : nat) (b : Z),
+    bytes_ok msg -> (i < List.length msg)%nat -> byte_ok b -> b <> nth i msg 0 ->
+    crc32 (set_byte msg i b) <> crc32 msg.
+Proof. exact crc32_detects_single_byte_proof. Qed.
+Print Assumptions crc32_detects_single_byte.
+
+Example crc32_nonvacuous :
+  crc32 [49; 50; 51; 52; 53; 54; 55; 56; 57] = 3421780262 /\ bytes_ok [49; 50; 51] /\ byte_ok 0.
+Proof. split; [reflexivity | split; [repeat constructor; cbv; intuition congruence | cbv; intuition congruence]]. Qed.
+
+(* testzip (recomputing the CRC-32 of every member payload) reports an archive in which one payload byte was altered *)
+Theorem testzip_detects_corruption :
+  forall (a : zarchive) (k i : nat) (b : Z) (m : zmember),
+    written_ok a -> nth_error a k = Some m -> (i < List.length (zm_payload m))%nat ->
+    byte_ok b -> b <> nth i (zm_payload m) 0 ->
+    testzip_passes (corrupt a k i b) = false.
+Proof. exact testzip_detects_corruption_proof. Qed.
+Print Assumptions testzip_detects_corruption.
+
+(* ... and load_npz therefore rejects it, whatever the lazy member reads would have returned.  The remaining oracle
+   for this case: ZipFile.testzip() recomputes the CRC-32 of every member's (decompressed) payload and compares it
+   with the recorded CRC, i.e. the [ok] of [Archive ok view] is [testzip_passes] of the archive. *)
+Theorem npz_payload_corruption_rejected :
+  forall (V : Type) (a : zarchive) (k i : nat) (b : Z) (m : zmember) (view : members V),
+    written_ok a -> nth_error a k = Some m -> (i < List.length (zm_payload m))%nat ->
+    byte_ok b -> b <> nth i (zm_payload m) 0 ->
+    exists e, load_file V (Archive (testzip_passes (corrupt a k i b)) view) = Raise e.
+Proof. exact npz_payload_corruption_rejected_proof. Qed.
+Print Assumptions npz_payload_corruption_rejected.
